@@ -1338,6 +1338,13 @@ int simk_close(int fd)
 {
 	int i;
 	simk_yield();
+	if (!passthru && !(fd >= 0 && fd < NFDL && libfd[fd]) && simk_obs.deadlock) {
+		/* every close() the library makes is on a descriptor it created itself and has not closed yet;
+		 * anything else is a double close, or the close of somebody else's descriptor */
+		static char msg[120];
+		snprintf(msg, sizeof(msg), "the library closes descriptor %d, which it does not own (closed before, or never its own)", fd);
+		simk_obs.deadlock(msg);
+	}
 	i = tfd_find(fd);
 	if (i >= 0)
 		tfd[i].fd = 0;
